@@ -286,6 +286,16 @@ def shapes(tier):
     for kind in ("feasible", "infeasible", "objective"):
         for cfg in conc:
             out.append(concrete_shape(kind, cfg))
+    # the optimisers agree on the optimal value: Optimize returns an optimum by contract, so the incremental
+    # optimiser must only ever claim an optimum that is one - under every option (traces of C07, solver stub)
+    from checks import c07
+    opts = [{}, {"debug": True}, {"parallel": True}, {"random_values": True}, {"logics": "QF_LIA"}]
+    if tier == "thorough":
+        opts += [{"logics": "QF_IDL"}, {"debug": True, "parallel": True, "random_values": True}]
+    for obj, weights in (("makespan", None), ("min_bounded", None), ("max_bounded", None), ("max_user", None), ("weighted_min", ("sym", "sym")),
+                         ("weighted_bounded_first", None), ("weighted_bounded_last", None)):
+        for cfg in opts:
+            out.append(c07.trace_shape(obj, cfg, max_checks=5, weights=weights, prop=PROP, only=("optimum_claim_justified", "objective_wiring"), prefix="optimisers_agree"))
     return out
 
 
@@ -296,5 +306,6 @@ def main(tier):
             "validity of a schedule is a property of the assertion set: equal assertion sets (as constraint systems) admit the same schedules under every configuration; this equality is what is decided",
             "z3's own handling of parallel mode, seeds, SolverFor(logic), Optimize priorities is trusted; it is exercised only by the concrete layer (real z3, three small instances, 11 configurations; trace validation)",
             "quick: every single option, option pairs and some triples; thorough: the full product of optimizer x priority x parallel x random_values x debug x 7 logics",
+            "optimisers agree: the incremental optimiser's optimum claims are justified on the solver stub (<= 5 checks, 7 objective kinds x 5/7 option sets); Optimize.check() returns an optimum by contract",
             "objective wiring: Optimize objectives compared with the declared ones (z3 stores maximize(t) as minimize(-t)); incremental target compared with the (weighted sum of the) declared objective(s)",
         ])
